@@ -1,6 +1,8 @@
 use crate::macros::dispatch;
 
 pub use methods::dispatch as get_milliseconds;
+#[cfg(feature = "verif_hooks")]
+pub use methods::verif_inner;
 
 #[dispatch]
 mod methods {
@@ -20,5 +22,12 @@ mod methods {
 
     fn get_milliseconds(this: Duration) -> i64 {
         this.subsec_nanos() as i64 / 1000000i64
+    }
+
+    /// Forwarders to the typed overloads, for the external verification harness.
+    #[cfg(feature = "verif_hooks")]
+    pub mod verif_inner {
+        pub fn utc(this: chrono::DateTime<chrono::Utc>) -> i64 { super::get_milliseconds_zti(this) }
+        pub fn dur(this: chrono::Duration) -> i64 { super::get_milliseconds_zyi(this) }
     }
 }
